@@ -82,3 +82,11 @@ def t_drift_limit(world):
 _t17d = tasks
 def tasks(tier):
     return _t17d(tier) + [('drift_limit', t_drift_limit)]
+
+
+
+# ---------------------------------------------------------------- C17.e: the deposit handler computes the 'up to limit' capacity on accrued share values (shared with C06.e.deposit; this is fixed finding 313d4f01)
+_t_c17e = tasks
+def tasks(tier):
+    from specs.flows import flow_task
+    return _t_c17e(tier) + [('flow_deposit', renamed(flow_task('deposit', ('C06',)), 'C06.e.', 'C17.e.'))]
